@@ -64,7 +64,9 @@ async fn measure_default_bound() -> usize {
 pub fn cmd_probe(a: &Args) -> i32 {
     crate::sa::install_panic_hook();
     let mode = a.str("mode", "default");
-    let rt = tokio::runtime::Builder::new_multi_thread().worker_threads(2).enable_time().build().unwrap();
+    // paused virtual clock: the "send into a full mailbox waits" timeouts below are decided in virtual time
+    // (the clock only advances when every task is blocked), so a loaded machine cannot distort the measured bound
+    let rt = tokio::runtime::Builder::new_current_thread().enable_time().start_paused(true).build().unwrap();
     let mut viol: Vec<String> = vec![];
     let mut obl = 0u64;
     let mut detail = String::new();
